@@ -18,6 +18,8 @@ import (
 
 func init() { registry["C13"] = runC13 }
 
+var c13FaultRot int
+
 // ---------------------------------------------------------------- plan trees as Gallina terms
 
 func c13OptBytes(b []byte) string {
@@ -381,6 +383,11 @@ func c13Run(e *emitter, q string, kvs [][2]string, match func(k, v string) bool,
 	for i := range log0 {
 		st := newStore(kvs)
 		st.faultAt = i
+		// the error VALUE rotates over an ordinary error and the values a dropped connection
+		// produces (io.EOF, io.ErrUnexpectedEOF, a wrapped io.EOF, context.Canceled): a failing
+		// read is a fault whatever its value
+		c13FaultRot++
+		st.faultErr = faultValues[c13FaultRot%len(faultValues)]
 		res := runQuery(q, st, batch, B, true)
 		cls := errClass(res.Err)
 		prefix := len(st.log) <= len(log0)
